@@ -245,12 +245,18 @@ impl<U: TimeUnitTrait> DateTime<U> {
             if dm < 0 {
                 unimplemented!("not support year before ce or negative month")
             }
+            // months are counted from zero so that a period starts at a multiple of `dm`
             let dt_month = if flag {
-                (dt_year * 12 + dt.month()) as i32
+                (dt_year * 12 + dt.month0()) as i32
             } else {
-                dt_year as i32 * (-12) + dt.month() as i32
+                dt_year as i32 * (-12) + dt.month0() as i32
             };
             let delta_down = dt_month % dm;
+            // the result is the first instant of the month the period starts in
+            dt = dt
+                .with_day(1)
+                .and_then(|d| d.with_time(chrono::NaiveTime::MIN).single())
+                .expect("Rounding Error");
             dt = match delta_down.cmp(&0) {
                 Ordering::Equal => dt,
                 Ordering::Greater => dt - Months::new(delta_down as u32),
